@@ -49,6 +49,10 @@ pub struct Config {
     /// call order of the builder's setters (see sut.rs)
     #[serde(default)]
     pub order: u8,
+    /// built with the builder's own key builder, coster and update validator (`keys` then holds what
+    /// DefaultKeyBuilder computes for 0..n, the validator is `Always`, the Coster values everything 0)
+    #[serde(default)]
+    pub defaults: bool,
 }
 
 #[derive(Clone, Debug, PartialEq, Eq, Serialize, Deserialize, Hash)]
@@ -365,9 +369,11 @@ impl<'a> Interp<'a> {
             keys: cfg.keys.clone(),
             order: cfg.order,
         };
-        let sut: std::rc::Rc<dyn Sut> = match cfg.flavour {
-            Flavour::Sync => std::rc::Rc::new(SyncSut::build(&b).map_err(|e| e.to_string())?),
-            Flavour::Async => std::rc::Rc::new(AsyncSut::build(&b).map_err(|e| e.to_string())?),
+        let sut: std::rc::Rc<dyn Sut> = match (cfg.flavour, cfg.defaults) {
+            (Flavour::Sync, false) => std::rc::Rc::new(SyncSut::build(&b).map_err(|e| e.to_string())?),
+            (Flavour::Async, false) => std::rc::Rc::new(AsyncSut::build(&b).map_err(|e| e.to_string())?),
+            (Flavour::Sync, true) => std::rc::Rc::new(crate::sut::SyncSutDefaults::build_defaults(&b).map_err(|e| e.to_string())?),
+            (Flavour::Async, true) => std::rc::Rc::new(crate::sut::AsyncSutDefaults::build_defaults(&b).map_err(|e| e.to_string())?),
         };
         let internal = if cfg.ignore_internal_cost {
             0
@@ -1544,7 +1550,7 @@ impl<'a> Interp<'a> {
             return;
         }
         // model
-        let ext = if cost == 0 { tag as i64 } else { 0 };
+        let ext = if cost == 0 && !self.cfg.defaults { tag as i64 } else { 0 };
         if cost == 0 {
             self.feats.coster_writes += 1;
         }
